@@ -76,9 +76,14 @@ func (m *Model) PullMeterReadings(ctx context.Context, opts ...resource.ReadOpti
 		defer close(send)
 		for change := range recv {
 			value := change.Value.(*traits.MeterReading)
-			send <- PullMeterReadingChange{
+			select {
+			case <-ctx.Done():
+				// the subscriber may have stopped receiving: do not wait for it once it has cancelled
+				return
+			case send <- PullMeterReadingChange{
 				Value:      value,
 				ChangeTime: change.ChangeTime,
+			}:
 			}
 		}
 	}()
